@@ -12,8 +12,12 @@ what is observed, and when two parsed annotations count as "the same annotation 
                 the Def and the anchor among the members of a group by their spans).
 * `Blank`     — texts related by inserting/deleting U+0020 next to a delimiter or at the ends.
 * `toDup`     — the translation of a resolved tree into the trees of `Model/Dup.lean`.
-* `Rewrite`   — the rewrites of C04 on abstract forests with their layout (`Layout`): respell a tag,
-                change the blanks next to delimiters, permute the members of a group.
+* `SameTag`, `Respelled`, `TagRel` — the relations between the tags of two parses (reordering/spacing: the
+                same tag elsewhere; spelling: tags the rules cannot tell apart) and what such a relation must
+                respect for the whole validator to agree.
+* `ParsedWF`, `textIssues`, `DefsOK`, `GVSim`, `mkTagW` — bookkeeping of the proofs.
+The relations on abstract forests (`ANodeSim`, `RespellText`) and the inductive `C04.Rewrite` on texts use
+`ATree` of `Props/C02.lean` and are defined in `Props/C04.lean`.
 Definitions only; the theorems are in `Props/C04.lean`.
 -/
 import HedVerif.Model.Validate
@@ -72,12 +76,14 @@ def SpansOK (l : List RNode) : Prop := SpanDistinct l ∧ (l.map nodeSpan).Nodup
 
 /-! ### texts -/
 
-/-- one U+0020 inserted next to a delimiter (`,` `(` `)`), next to another blank, or at either end -/
+/-- one U+0020 inserted right after or right before a delimiter (`,` `(` `)`), or at either end.
+(Repeating the step gives runs of blanks; a blank next to a blank *inside a tag* is not a step: it would
+change the tag.) -/
 inductive BlankStep : Str → Str → Prop
   | start (s : Str) : BlankStep s (' ' :: s)
   | stop (s : Str) : BlankStep s (s ++ [' '])
-  | after (a b : Str) (d : Char) (hd : Tok.isDelim d = true ∨ d = ' ') : BlankStep (a ++ d :: b) (a ++ d :: ' ' :: b)
-  | before (a b : Str) (d : Char) (hd : Tok.isDelim d = true ∨ d = ' ') : BlankStep (a ++ d :: b) (a ++ ' ' :: d :: b)
+  | after (a b : Str) (d : Char) (hd : Tok.isDelim d = true) : BlankStep (a ++ d :: b) (a ++ d :: ' ' :: b)
+  | before (a b : Str) (d : Char) (hd : Tok.isDelim d = true) : BlankStep (a ++ d :: b) (a ++ ' ' :: d :: b)
 
 /-- blanks inserted or deleted next to delimiters and at the ends, any number of times -/
 inductive Blank : Str → Str → Prop
@@ -104,5 +110,47 @@ end
 def dupCode : Dup.Kind → Str
   | .tag => Kind.tagRepeated.code
   | .grp => Kind.groupRepeated.code
+
+/-! ### relations between the tags of two parses -/
+
+/-- the same tag up to its position in the text (reordering, spacing) -/
+def SameTag (t t' : RTag) : Prop := t'.org = t.org ∧ t'.ns = t.ns ∧ t'.entry = t.entry ∧ t'.extVal = t.extVal
+
+/-- what a relation between the tags of two parses must respect for the whole validator to agree:
+the schema-based rules see `Core`; phases 1 and 2 read the text of the tag itself -/
+structure TagRel (env : Env) (R : RTag → RTag → Prop) : Prop where
+  core : ∀ t t', R t t' → Core t t'
+  slash : ∀ t t', R t t' → errCodes (slashIssues t) = errCodes (slashIssues t')
+  chars : ∀ t t', R t t' → errCodes (tagCharIssues env true t) = errCodes (tagCharIssues env true t')
+  recanon : ∀ t t', R t t' → R (canon env t).1 (canon env t').1
+  lookup : ∀ t t', R t t' → errCodes (canon env t).2 = errCodes (canon env t').2
+
+/-- a respelled tag: the two spellings resolve alike (`Core`: same namespace, entry, value — C03), the
+character and slash rules say the same about both texts ("the same characters class-wise"), and looking a
+resolved tag up again changes nothing -/
+structure Respelled (env : Env) (t t' : RTag) : Prop where
+  core : Core t t'
+  slash : errCodes (slashIssues t) = errCodes (slashIssues t')
+  chars : errCodes (tagCharIssues env true t) = errCodes (tagCharIssues env true t')
+  stable : (canon env t).1 = t ∧ (canon env t').1 = t'
+
+/-- `p` is what `parse` builds from its first tree -/
+def ParsedWF (env : Env) (p : Parsed) : Prop :=
+  p.root1 = (recanonList env p.root0).1 ∧ p.lookup = (recanonList env p.root0).2
+
+/-- the rules that read the raw text only -/
+def textIssues (env : Env) (text : Str) : List Issue :=
+  charIssues env true text ++ parenIssues text ++ delimIssues env.cd text
+
+/-- the definitions in use expand to admissible tags -/
+def DefsOK (env : Env) (P : Dup.Tag → Prop) : Prop :=
+  ∀ t rest, defExpansion env t = .ok rest → ∀ x ∈ tagsList rest, P (toDupTag env x)
+
+/-- two entries of `get_all_groups`: same flags, related members -/
+def GVSim (R : RTag → RTag → Prop) (g g' : GV) : Prop :=
+  g.isGroup = g'.isGroup ∧ g.isTop = g'.isTop ∧ ForestSim R g.kids g'.kids
+
+/-- `HedTag(text)` at a span -/
+def mkTagW (env : Env) (w : Str) (sp : Nat × Nat) : RTag := (canon env ⟨sp, w, Schema.namespaceOf w, none, []⟩).1
 
 end HedVerif.Rewrite
